@@ -4,5 +4,5 @@
 EXTENDS MultiTask_apa, TLAPS
 DomInv == /\ DOMAIN bufs = Tasks /\ DOMAIN hist = Tasks /\ sel \in Tasks
 THEOREM DomInv /\ [Next]_vars => \A t \in Tasks : bufs'[t] = bufs[t] /\ hist'[t] = hist[t]
-  BY DEF DomInv, Next, vars, Select, SelectInvalid, Add, Sample, LenQuery, Tasks
+  BY DEF DomInv, Next, vars, Select, SelectInvalid, Add, Route, Sample, LenQuery, Tasks
 =============================================================================
